@@ -829,18 +829,18 @@ func runC18(c *Ctx) {
 	r.Rule = "metamorphic identities on the real pipeline (parse, check, optimise, compile, run on a fresh VM) over collections (typed environment slices of length 0..200, literals, ranges, results of filter/map, slices; strings and a map only without a checker) x closures (generated to nesting depth 3 with logged environment calls, plus failing and non-boolean ones) x modes {struct env optimiser on/off, map env, no checker} x memory budgets {1e6, 50}: all = not any not, none = not any, one = (count == 1) (value or error class, call log, allocation total), count = len(filter) (allocation total + count), len(map) = len, filter = the satisfying elements in order (against map and the collection, in Go), nested closures see their own innermost element (expected value computed in Go, depth 2..4), x in lo..hi = (x >= lo and x <= hi), xs[:i] ++ xs[i:] = xs; every program run is also compared with the Lean reference evaluator (value, error class, call log, allocation total); non-trivial = non-empty collection and a closure that mentions # or calls a function; distinct by (identity, source, mode)"
 	scale := 1
 	if c.Thorough() {
-		scale = 15
+		scale = 22
 	}
 	k := &c18{c: c}
 	k.stream(1000000, false, func() {
-		k.builtins(1800 * scale)
-		k.scopes(240 * scale)
-		k.inRange(400 * scale)
-		k.slices(300 * scale)
+		k.builtins(1200 * scale)
+		k.scopes(200 * scale)
+		k.inRange(300 * scale)
+		k.slices(200 * scale)
 	})
 	k.stream(50, true, func() {
-		k.builtins(420 * scale)
-		k.inRange(90 * scale)
+		k.builtins(300 * scale)
+		k.inRange(60 * scale)
 	})
 	for i, id := range c18ids {
 		if r.Counters["c18:"+id+":compared"] == 0 || (i < 4 && r.Counters["c18:"+id+":both-err"] == 0) {
